@@ -911,6 +911,12 @@ class SymClient(Client):
                 # a class attribute read through the instance: only constant if no subclass re-defines it
                 if any(ch[1] in k.attrs for k in self.repo.subclasses(self.cls) if k.key != self.cls.key):
                     return None
+                # ... and no method re-binds it on the instance / class
+                for k in self.repo.subclasses(self.cls) + self.cls.mro():
+                    for fn_ in list(k.methods.values()) + list(k.setters.values()):
+                        for n_ in ast.walk(fn_.node):
+                            if isinstance(n_, ast.Attribute) and n_.attr == ch[1] and isinstance(n_.ctx, (ast.Store, ast.Del)):
+                                return None
             try:
                 v = self.repo.fold(e, self.mod, self.cls)
             except NotConst:
